@@ -128,7 +128,7 @@ def finish(prop, report, ctx, explanation, assumptions, trusted_base, rule_text,
     new = []
     printed_known = set()
     for v in viol:
-        base_key = v["key"]
+        base_key = v["key"].split("@", 1)[0]  # the same finding in another feature configuration
         if base_key in known_keys:
             if base_key not in printed_known:
                 printed_known.add(base_key)
